@@ -40,6 +40,28 @@ CLAIMED = {
             "the extents computed from UFL + ufcx.h, for all iterations and all valid entity/permutation values; cell kernels never "
             "dereference entity/permutation pointers (E2).",
             "Corpus-bounded over programs; extents oracle from UFL form data; A-INT.", "sidecar contracts + VC generation (z3); per-kernel SMT interval obligations", "4 C08"),
+    "C14": ("proof", "per-process ordering contracts of the cache protocol proved on every control-flow path of the real jit.py "
+            "functions, including every exceptional exit of the fault model: O1 lock before build, O2 marker only after the C "
+            "compiler returned, O3 waiters load only after seeing the marker and never build, O7 builder loads after the build.",
+            "Interleavings are covered only through L-RG (pen-and-paper) + file-system atomicity; liveness (all return within the "
+            "timeout), importlib caching and kernel correctness are not decided.",
+            "effect-trace contracts discharged by exhaustive path enumeration of the real source (E1 effect mode)", "4 C14"),
+    "C15": ("proof", "O4 every exceptional exit of the build region renames the lock to .failed and re-raises the original exception, "
+            "O5 root logger handlers and stdout restored on every exit, O3e exhausted poll ends in TimeoutError, O2 marker never "
+            "without a complete build (hence crash-safe by L-RG) - on every path incl. fault points.",
+            "Fault model and whitelist of total calls listed in the evidence; cffi's own rebuild behaviour not decided.",
+            "effect-trace contracts discharged by exhaustive path enumeration of the real source (E1 effect mode)", "4 C15"),
+    "C16": ("proof", "every constructible (parent class, operand position, child class) depth-2 tree of the real class table is formatted "
+            "by the real C and numba formatters and parsed back with pycparser / Python ast to the same tree (exhaustive); literal "
+            "precision p decided arithmetically (5*10^-p <= 2^-53).",
+            "L-UNPARSE (depth-2 => all trees) is pen-and-paper and needs the structural handler contracts (decision depends only on "
+            "classes), which are not yet discharged by E1; pycparser/CPython grammars trusted.",
+            "exhaustive finite enumeration on the real formatters with independent parsers", "4 C16"),
+    "C20": ("proof", "option precedence of get_options proved key-wise (E1, structurally bounded key set, not counted); the CLI forwards an "
+            "option as priority iff given (exhaustive over all options and pairs, real argparse parser); CLI and JIT use the same "
+            "compile entry (syntactic); header/source pairing and aliases on every corpus module (bounded).",
+            "argparse external; stand-alone compilation and numeric equality with the JIT not decided.",
+            "VC generation from the Python AST (z3) + exhaustive finite enumeration on the real CLI parser", "4 C20"),
     "C17": ("proof", "all LExpr operator overloads proved value-preserving for all operand classes/values over the reals (E1, lazy "
             "initialisation of operands).", "A-FLOAT (0*x -> 0 etc. are identities over the reals); optimiser passes not yet under contract.",
             "sidecar contracts + VC generation from the Python AST (z3/cvc5)", "4 C17"),
